@@ -128,8 +128,8 @@ func (f *fallback) doFallback(ctx context.Context, qCtx *query_context.Context) 
 			close(primFailed)
 			respChan <- nil
 		} else {
+			respChan <- r // queue the answer before signalling, so it is always taken first
 			close(primDone)
-			respChan <- r
 		}
 	}()
 
